@@ -83,6 +83,7 @@ def codingF : Coding Float where
   i32 x := ofInt32 x.toInt64.toInt
   ofInt i := Float.ofInt i
   div255 x := x / 255
+  mulInv255 x := x * (1.0 / 255)
   showF := showFloat
   showI x := showInt x.toInt64.toInt
   parseF s := (parseDecimal s).map (fun x => x.toFloat32.toFloat)
